@@ -306,6 +306,8 @@ class _Linalg(object):
         if not is_sym(A):
             r = np.linalg.inv(_f(A))
             return objarr(r) if ENG.active else r
+        if np.ndim(A) < 2:
+            raise np.linalg.LinAlgError('%d-dimensional array given. Array must be at least two-dimensional' % np.ndim(A))
         return _inv(objarr(A))
 
     @staticmethod
